@@ -47,7 +47,7 @@ PROBES = ["extractfile_before_lookup", "clients_start_before_any_listing", "file
           "readline_unterminated_last_line_odd", "readline_unterminated_last_line_even",
           "readline_n_crossing_member_end", "read_after_seek_past_end",
           "alternating_single_byte_reads", "duplicate_name_lookup", "empty_member",
-          "two_arfiles_one_fileobj", "opened_by_filename", "archive_object_dropped_members_kept", "readlines_on_non_last_member",
+          "two_arfiles_one_fileobj", "opened_by_filename", "archive_object_dropped_members_kept", "archive_starts_inside_the_file_object", "readlines_on_non_last_member",
           "bsd_style_name", "payload_contains_header_magic"]
 
 _STATE = {}
@@ -181,8 +181,11 @@ def generate(seed, run, tier):
         steps.append(st)
     # lifetime: the clients take the members and let go of the archive object itself
     detach = [rs.random() < 0.2 for _ in range(narch)]
+    # the file object handed over holds other data before the archive and is positioned at
+    # the archive's first byte (an even or odd number of bytes in)
+    lead = rs.choice([0] * 6 + [1, 7, 8, 60, 61])
     return {"world": {"members": members, "archives": archives, "list_first": list_first,
-                      "prior": prior, "detach": detach}, "trace": steps}
+                      "prior": prior, "detach": detach, "lead": lead}, "trace": steps}
 
 
 def describe(case):
@@ -207,7 +210,10 @@ def execute(case):
     members = world["members"]
     datas = [dec_bytes(m["data"]) for m in members]
     blob = arwriter.build([dict(m, data=d) for m, d in zip(members, datas)])
-    shared = SimFile(blob)
+    lead = int(world.get("lead") or 0)
+    shared = SimFile(b"!<arch>\nx"[:lead].ljust(lead, b"`") + blob)
+    if lead:
+        out.probe("archive_starts_inside_the_file_object")
     path = None
     ars = []
     stale = []
@@ -249,7 +255,7 @@ def execute(case):
                 out.probe("opened_by_filename")
             else:
                 # the caller hands over a file object positioned at the archive's start
-                shared.seek(0)
+                shared.seek(lead)
                 r = _call(lambda: arfile.ArFile(fileobj=shared))
             if r[0] != "ok":
                 raise Violation("archive-rejected", "open", {"error": r[1], "mode": kind})
@@ -502,6 +508,10 @@ def shrink_candidates(case):
             c = copy.deepcopy(case)
             c["world"]["archives"][i] = "fileobj"
             yield c
+    if w.get("lead"):
+        c = copy.deepcopy(case)
+        c["world"]["lead"] = 0
+        yield c
     for i, a in enumerate(w.get("detach") or []):
         if a:
             c = copy.deepcopy(case)
